@@ -11,13 +11,26 @@ def run(tier):
     r = engine.model_check(vd, "closure", 2 if tier == "quick" else 3)
     if r.violated:
         vd.observe("model:closure:" + r.violated, {"tlc_invariant": r.violated, "output": r.out[-6000:]})
+    # small-step model of op_tr_closure over every graph on 3 nodes: safety and termination under fairness
+    import tlc
+    for plus in (False, True):
+        t = tlc.run_tlc("ClosureSteps", constants={"Nodes": (1, 2, 3) if tier == "quick" else (1, 2, 3), "IsPlus": plus, "MutSeen": "none"},
+                        spec="FairSpec", invariants=["NoDuplicates", "OnlyReachable", "Complete"], props=["Terminates"],
+                        workers=8, timeout=1500)
+        if t.violated or "Temporal properties were violated" in t.out:
+            vd.observe("model:ClosureSteps:%s" % (t.violated or "Terminates"), {"output": t.out[-4000:]})
+        elif not t.ok:
+            raise common.ToolError("TLC ClosureSteps failed\n" + t.out[-2000:])
+        vd.add_states(t)
     vecs, st = engine.generate("closure", 3, 16, wd)
     engine.replay(vd, vecs, bdir, wd, PID, check_illformed=False)
     return vd.finish(rule="closure bodies over small finite graphs (family 'closure' of tla/Progs0.tla: "
                      "1 add bounded by ?(3 ?lt), 2 div, 1 add 3 mod, dup/drop, multi-yield bodies with ALT/OR, "
                      "nested closures) up to weight 3, on a two-stack stream and a single stack; expected "
-                     "reachability sets from Zw!Den (Closure); termination: TLC invariant NeverOutOfFuel "
-                     "on the engine model, 20 s budget per program on the implementation",
+                     "reachability sets from Zw!Den (Closure); termination: the temporal property <>done under weak "
+                     "fairness on the small-step model tla/ClosureSteps.tla (every graph on 3 nodes with up to 2 successors per "
+                     "node, 1-2 inputs, star and plus), invariant NeverOutOfFuel on the engine model, 20 s budget per program on "
+                     "the implementation",
                      exhaustive=True, extra={"family": st})
 
 def replay(path):
